@@ -73,6 +73,13 @@ const PROGS: &[Prog] = &[
     // several errors, each on a line that carries multi-byte text before the offending place
     Prog { id: "errors-after-non-ascii-text", text: Some("fa :: fn do\n    s := \"é\" + )\nend\nfb :: fn do\n    s := \"åäö€\" + )\nend\nfc :: fn do\n    s := \"😀😀\" + )\nend\nstart :: fn do\n    t := \"ü€😀é\" + ) // ünï\nend\n"), uses_std: false, extra: &[], must_reject: Some(4) },
     Prog { id: "errors-after-tabs-and-non-ascii-text", text: Some("fa :: fn do\n\ts := \"é€\" + )\nend\nstart :: fn do\n\t\tt := \"😀\" + ) // €\nend\n"), uses_std: false, extra: &[], must_reject: Some(2) },
+    // one rejected program per stage of the compiler that can refuse a program: dependency ordering (a cycle of functions only,
+    // a cycle of values), duplicate definitions, an import that names no file, assignment to a constant
+    Prog { id: "rejected-dependency-cycle-of-functions", text: Some("even :: fn n: int -> bool do\n    if n == 0 do ret true end\n    ret odd(n - 1)\nend\nodd :: fn n: int -> bool do\n    if n == 0 do ret false end\n    ret even(n - 1)\nend\nstart :: fn do\n    even(4) <=> true\nend\n"), uses_std: false, extra: &[], must_reject: Some(1) },
+    Prog { id: "rejected-dependency-cycle-of-values", text: Some("a :: b + 1\nb :: a + 1\nstart :: fn do\n    a <=> 1\nend\n"), uses_std: false, extra: &[], must_reject: Some(1) },
+    Prog { id: "rejected-duplicate-definitions", text: Some("a :: 1\na :: 2\nstart :: fn do\nend\n"), uses_std: false, extra: &[], must_reject: Some(1) },
+    Prog { id: "rejected-import-of-a-missing-file", text: Some("use nothere\nstart :: fn do\nend\n"), uses_std: false, extra: &[], must_reject: Some(1) },
+    Prog { id: "rejected-assignment-to-a-constant", text: Some("start :: fn do\n    x :: 1\n    x = 2\nend\n"), uses_std: false, extra: &[], must_reject: Some(1) },
     // a program that does not use std but has locals named like std namespaces
     Prog { id: "std-free-locals-named-like-std-modules", text: Some("P :: blob { value: int }\nf :: fn set: P, list: P -> int\n    set.value + list.value\nend\nstart :: fn do\n    dict :: P { value: 1 }\n    f(dict, P { value: 2 }) <=> 3\n    dict.value <=> 1\nend\n"), uses_std: false, extra: &[], must_reject: None },
 ];
@@ -364,7 +371,7 @@ pub fn run(run: &mut Run) {
     st.transitions = st.evaluations;
     st.traces_validated = st.evaluations;
     run.stats = st;
-    run.rule = "full product of program class (clean, assertion fails, <!>, rejected with 1 and 2 errors, syntax error, std-using clean and failing, missing file, two-file projects: clean / error only in the imported file / syntax errors in importer and imported / in a chain of three files / `start` only in an imported module, `start` of the wrong type, errors on lines with multi-byte text and tabs, a std-free program whose locals are named like std modules, programs with 255 / 256 / 257 / 512 syntax errors) x --no-std x --require x -v x output mode (run, -o -, -o FILE over absent / existing / missing directory / is-a-directory); distinct by configuration; every configuration is non-trivial".into();
+    run.rule = "full product of program class (clean, assertion fails, <!>, rejected with 1 and 2 errors, syntax error, one rejected program per refusing stage (dependency cycle of functions only / of values, duplicate definitions, import of a missing file, assignment to a constant), std-using clean and failing, missing file, two-file projects: clean / error only in the imported file / syntax errors in importer and imported / in a chain of three files / `start` only in an imported module, `start` of the wrong type, errors on lines with multi-byte text and tabs, a std-free program whose locals are named like std modules, programs with 255 / 256 / 257 / 512 syntax errors) x --no-std x --require x -v x output mode (run, -o -, -o FILE over absent / existing / missing directory / is-a-directory); distinct by configuration; every configuration is non-trivial".into();
     run.bounds = json!({"programs": progs().iter().map(|p| p.id).collect::<Vec<_>>()});
     run.assumptions = vec![
         "`lua` on PATH is the MiniLua CLI".into(),
